@@ -135,23 +135,118 @@ func runStage(name string, f func()) {
 
 var gateRe = regexp.MustCompile(`\.Ver\s*(>=|<=|==|!=|>|<)\s*([0-9]+)`)
 
+// a version compared with a named constant (`this.Ver >= UDP_PACK_VERSION`), also inside a helper
+// method of AbstractPack: the constant's value is a gate like any literal
+var gateNameRe = regexp.MustCompile(`\.Ver\s*(>=|<=|==|!=|>|<)\s*([A-Za-z_][A-Za-z0-9_]*)`)
+
 // gates of the source: every constant a version is compared with
 func sourceGates(repo string) []int64 {
 	set := map[int64]bool{}
 	files, _ := filepath.Glob(filepath.Join(repo, "lang", "pack", "udp", "*.go"))
+	var srcs []string
 	for _, f := range files {
 		b, err := os.ReadFile(f)
 		if err != nil {
 			continue
 		}
+		srcs = append(srcs, string(b))
 		for _, m := range gateRe.FindAllStringSubmatch(string(b), -1) {
 			n, _ := strconv.ParseInt(m[2], 10, 64)
 			set[n] = true
 		}
 	}
+	for _, src := range srcs {
+		for _, m := range gateNameRe.FindAllStringSubmatch(src, -1) {
+			def := regexp.MustCompile(`(?m)^\s*(?:const\s+)?` + regexp.QuoteMeta(m[2]) + `\s*(?:int32\s*|int64\s*|int\s*)?=\s*([0-9]+)\b`)
+			for _, other := range srcs {
+				if d := def.FindStringSubmatch(other); d != nil {
+					n, _ := strconv.ParseInt(d[1], 10, 64)
+					set[n] = true
+					namedGates[m[2]] = n
+				}
+			}
+		}
+	}
 	var out []int64
 	for n := range set {
 		out = append(out, n)
+	}
+	sort.Slice(out, func(i, j int) bool { return out[i] < out[j] })
+	return out
+}
+
+var namedGates = map[string]int64{}
+
+// ---------------------------------------------------------------- families
+//
+// The families are the ranges of the ladder `Ver > 50000 / > 40000 / > 30000 / > 20000 / else` that
+// every Write, Read and Process of the package has.  A family is sampled over its WHOLE range, not
+// only around the gates that exist in the source today: its lowest version, the next one, interior
+// values below the first gate, the lower neighbour of the first gate, values between and above the
+// gates, and its top.  A gate that a change introduces inside a family (in one of Write / Read /
+// Process only) then separates two sampled versions of the family wherever it is put coarsely, and
+// the ranges below the first gate — where no literal of the source points — are always exercised.
+type family struct {
+	name   string
+	lo, hi int32
+	masks  bool // sends raw connection strings: Process() of the SQL / DB-connection packs masks the password
+}
+
+var families = []family{
+	{"PHP", 10001, 20000, true},
+	{"Python", 20001, 30000, false},
+	{"Dotnet", 30001, 40000, false},
+	{"Batch", 40001, 50000, false},
+	{"Go", 50001, 59999, true},
+}
+
+func familyOf(ver int32) *family {
+	for i := range families {
+		if ver >= families[i].lo && ver <= families[i].hi {
+			return &families[i]
+		}
+	}
+	return nil
+}
+
+// familySamples: the fixed samples of a family (deterministic) plus nrand random interior ones,
+// half of them below the first gate of the family
+func familySamples(f family, r *vh.Rng, nrand int, dense bool) []int32 {
+	var gs []int32
+	for _, g := range gates {
+		if g > int64(f.lo) && g <= int64(f.hi) && g%10000 != 0 {
+			gs = append(gs, int32(g))
+		}
+	}
+	set := map[int32]bool{f.lo: true, f.hi: true}
+	first, last := f.hi, f.lo
+	if len(gs) > 0 {
+		first, last = gs[0], gs[len(gs)-1]
+		for _, g := range gs {
+			set[g-1], set[g], set[g+1] = true, true, true
+		}
+	}
+	set[f.lo+(first-f.lo)/2] = true  // interior below the first gate: the middle
+	set[last+(f.hi-last)/2] = true   // interior above the last gate
+	if dense {
+		set[f.lo+1], set[f.hi-1] = true, true
+		set[f.lo+(first-f.lo)/4], set[f.lo+(first-f.lo)*3/4] = true, true
+		set[last+2], set[last+10] = true, true
+	}
+	if r != nil {
+		for i := 0; i < nrand; i++ {
+			if i%2 == 0 && first-1 > f.lo+1 {
+				set[int32(r.Range(int64(f.lo)+1, int64(first)-1))] = true
+			} else {
+				set[int32(r.Range(int64(f.lo), int64(f.hi)))] = true
+			}
+		}
+	}
+	var out []int32
+	for v := range set {
+		if v >= f.lo && v <= f.hi {
+			out = append(out, v)
+		}
 	}
 	sort.Slice(out, func(i, j int) bool { return out[i] < out[j] })
 	return out
@@ -185,6 +280,11 @@ func versions() []int32 {
 	}
 	for _, v := range []int32{0, 1, -1, 9999, 10100, 65536, 2147483647, -2147483648, udp.UDP_PACK_VERSION} {
 		set[v] = true
+	}
+	for _, f := range families { // the whole range of every family, see familySamples
+		for _, v := range familySamples(f, rng, 2, env.Thorough) {
+			set[v] = true
+		}
 	}
 	nrand := 20
 	if env.Thorough {
@@ -960,7 +1060,7 @@ func stageToPack(cases []*rtCase) {
 		}
 		for i, p := range pends {
 			if "s"+outs[i] != p.dbc {
-				if maskSearch(p.c.pt.name, string(vh.UnHex(p.c.rec["Dbc"][1:]))) {
+				if maskSearch(p.c.pt.name, string(vh.UnHex(p.c.rec["Dbc"][1:])), p.c.ver) {
 					continue
 				}
 				rep.Fail("correspondence", p.c.pt.name+":Process:Dbc",
@@ -1191,7 +1291,7 @@ func stageProcess() {
 		if !j.out.OK() {
 			rep.Count("proc.panic")
 			if outs[i] != "panic" {
-				if (j.pt.name == "UdpTxSqlPack" || j.pt.name == "UdpTxSqlParamPack" || j.pt.name == "UdpTxDbcPack") && maskSearch(j.pt.name, "") {
+				if (j.pt.name == "UdpTxSqlPack" || j.pt.name == "UdpTxSqlParamPack" || j.pt.name == "UdpTxDbcPack") && maskSearch(j.pt.name, "", j.ver) {
 					continue
 				}
 				rep.Fail("correspondence", j.pt.name+":Process:panic", fmt.Sprintf("Process() panics (%s) where the model does not, on %s", vh.Clip(j.out.Panic, 100), vh.Clip(j.pre, 300)), replay)
@@ -1210,7 +1310,7 @@ func stageProcess() {
 			}
 		}
 		if len(d) > 0 {
-			if (j.pt.name == "UdpTxSqlPack" || j.pt.name == "UdpTxSqlParamPack" || j.pt.name == "UdpTxDbcPack") && maskSearch(j.pt.name, "") {
+			if (j.pt.name == "UdpTxSqlPack" || j.pt.name == "UdpTxSqlParamPack" || j.pt.name == "UdpTxDbcPack") && maskSearch(j.pt.name, "", j.ver) {
 				continue
 			}
 			rep.Fail("correspondence", j.pt.name+":Process:fields", "pack after Process() differs from the model: "+vh.Clip(strings.Join(d, "; "), 400), replay)
@@ -2190,7 +2290,7 @@ func stageParamKV() {
 		if t.key != "password" {
 			continue
 		}
-		for _, ver := range []int32{50100, 10110} {
+		for _, ver := range []int32{50100, 10110, maskFamilyVers[i%len(maskFamilyVers)]} { // + one of the whole-range samples of the two families
 			tname := tn[i%3]
 			out, o := processDbc(tname, ver, t.s)
 			rep.Case(fmt.Sprintf("kvdbc %s %d %s", tname, ver, t.s), true)
@@ -2597,8 +2697,46 @@ func processDbc(tname string, ver int32, dbc string) (string, vh.Outcome) {
 
 var maskVers = []int32{50100, 50101, 50001, 50000, 40001, 30103, 20104, 20001, 20000, 10110, 10101, 10100, 0, -5}
 
-func inMaskFamily(ver int32) bool { // Go 501xx and PHP 101xx, the families that send raw connection strings
-	return (ver >= 50100 && ver <= 50199) || (ver >= 10100 && ver <= 10199)
+// maskFamilyVers: the dense samples of the whole range of the two families that send raw connection
+// strings (lowest version, interior values below the first gate, every gate and its neighbours,
+// above the last gate, top) — filled by initFamilyVersions once the gates of the source are known
+var maskFamilyVers []int32
+
+// initFamilyVersions extends the version lists of the stages that are not driven by versions():
+// the masking stage gets the dense samples of the masking families (and a few of the others, which
+// must NOT be required to mask), the use histories (proc, pool2, route) the coarse samples of all
+func initFamilyVersions() {
+	seenM, seenU := map[int32]bool{}, map[int32]bool{}
+	for _, v := range maskVers {
+		seenM[v] = true
+	}
+	for _, v := range useVers {
+		seenU[v] = true
+	}
+	for _, f := range families {
+		for _, v := range familySamples(f, nil, 0, f.masks) {
+			if f.masks {
+				maskFamilyVers = append(maskFamilyVers, v)
+			}
+			if !seenM[v] {
+				seenM[v] = true
+				maskVers = append(maskVers, v)
+			}
+		}
+		for _, v := range familySamples(f, nil, 0, false) {
+			if !seenU[v] {
+				seenU[v] = true
+				useVers = append(useVers, v)
+			}
+		}
+	}
+}
+
+// the families that send raw connection strings, over their whole range (Go 50001…, PHP …20000): the
+// same ranges in which Write and Read of these packs take the Go / PHP branch
+func inMaskFamily(ver int32) bool {
+	f := familyOf(ver)
+	return f != nil && f.masks
 }
 
 func maskReplay(tname string, ver int32, cs connStr) map[string]interface{} {
@@ -2631,7 +2769,7 @@ func maskProperty(tname string, ver int32, cs connStr) (string, bool, bool) {
 var maskSearchBudget = 40
 var maskSearchFound = map[string]bool{}
 
-func maskSearch(tname string, s string) bool {
+func maskSearch(tname string, s string, ver int32) bool {
 	if maskSearchFound[tname] { // a failing input near such strings has already been exhibited for this type
 		return true
 	}
@@ -2640,17 +2778,53 @@ func maskSearch(tname string, s string) bool {
 	}
 	maskSearchBudget--
 	found := maskSearch1(tname, s)
+	if !found && inMaskFamily(ver) && ver != 50100 && ver != 10110 {
+		// the disagreement is at another version of a masking family: the same search at that version
+		searchVers = []int32{ver}
+		found = maskSearch1(tname, s)
+		searchVers = []int32{50100, 10110}
+	}
+	if !found { // plain grammar strings over the whole range of both families
+		found = maskFamilySweep(tname, func(string, int32, connStr) {})
+	}
 	if found {
 		maskSearchFound[tname] = true
 	}
 	return found
 }
 
+var searchVers = []int32{50100, 10110}
+
+// the plain grammar strings of the family sweep
+var sweepConns = []connStr{
+	{"user=u password=PWsweep host=h", true, []string{"PWsweep"}, "sweep:uniform-space"},
+	{"user=u;password=PWsweep;host=h", true, []string{"PWsweep"}, "sweep:uniform-semicolon"},
+	{"a=1;b=2 password=PWsweep;c=3 d=4", true, []string{"PWsweep"}, "sweep:mixed"},
+	{"password=PWsweep", true, []string{"PWsweep"}, "sweep:alone"},
+	{"host=h port=1 password=PWsweep", true, []string{"PWsweep"}, "sweep:last"},
+}
+
+// maskFamilySweep: the property evaluated directly at EVERY sampled version of the whole range of
+// both masking families (not only 50100 / 10110 and the gates' neighbours).  true = a failure was
+// exhibited (and reported by maskProperty); each evaluated case is handed to `each`
+func maskFamilySweep(tname string, each func(out string, ver int32, cs connStr)) bool {
+	for _, ver := range maskFamilyVers {
+		for _, cs := range sweepConns {
+			out, _, bad := maskProperty(tname, ver, cs)
+			if bad {
+				return true
+			}
+			each(out, ver, cs)
+		}
+	}
+	return false
+}
+
 func maskSearch1(tname string, s string) bool {
 	// white space that TrimSpace removes around '=' and around the tokens (tabs: the blank pass does not cut them)
 	for _, form := range []string{"password\t=\t%s", "password\t=%s", "password=\t%s", "\tpassword=%s\t", "a=1;password\t=\t%s", "a=1 password\t=%s;b=2", "a=1;\tpassword\t=%s\t;b=2"} {
 		cs := connStr{fmt.Sprintf(form, "PWsearch"), true, []string{"PWsearch"}, "search-ws"}
-		for _, ver := range []int32{50100, 10110} {
+		for _, ver := range searchVers {
 			if _, _, bad := maskProperty(tname, ver, cs); bad {
 				return true
 			}
@@ -2660,7 +2834,7 @@ func maskSearch1(tname string, s string) bool {
 	for _, v := range []string{"word", "pass", "ss", "a", "d", "password", "passwor", "assword", "host", "db1", "h", "1"} {
 		for _, form := range []string{"password=%s", "host=db1 password=%s", "host=db1;password=%s", "host=db1 password=%s user=u", "host=db1;password=%s;user=u", "a=1;b=2 password=%s;c=3"} {
 			cs := connStr{fmt.Sprintf(form, v), true, []string{v}, "search-selfref"}
-			for _, ver := range []int32{50100, 10110} {
+			for _, ver := range searchVers {
 				if _, _, bad := maskProperty(tname, ver, cs); bad {
 					return true
 				}
@@ -2682,7 +2856,7 @@ func maskSearch1(tname string, s string) bool {
 				}
 				toks[at] = "password=PWsearch"
 				cs := connStr{strings.Join(toks, sep), true, []string{"PWsearch"}, "search-long"}
-				for _, ver := range []int32{50100, 10110} {
+				for _, ver := range searchVers {
 					if _, _, bad := maskProperty(tname, ver, cs); bad {
 						return true
 					}
@@ -2712,7 +2886,7 @@ func maskSearch1(tname string, s string) bool {
 			for _, form := range []string{"%s=1;password=%s", "%s=1 password=%s", "%s=;password=%s", "u=%s;password=%s"} {
 				sec := "PWsearch"
 				cs := connStr{fmt.Sprintf(form, pre, sec), true, []string{sec}, "search"}
-				for _, ver := range []int32{50100, 10110} {
+				for _, ver := range searchVers {
 					if _, _, bad := maskProperty(tname, ver, cs); bad {
 						return true
 					}
@@ -2731,7 +2905,7 @@ func maskOne(tname string, ver int32, cs connStr, model string) {
 	}
 	mout := string(vh.UnHex(model))
 	if !ok || mout != out {
-		if maskSearch(tname, cs.s) {
+		if maskSearch(tname, cs.s, ver) {
 			return
 		}
 		got := "panic"
@@ -2792,6 +2966,17 @@ func stageMask() {
 		for _, ver := range vs {
 			jobs = append(jobs, job{t, ver, cs})
 			lines = append(lines, fmt.Sprintf("D %d %s", ver, vh.Hex([]byte(cs.s))))
+		}
+	}
+	// the family sweep: plain grammar strings × every pack type × every sampled version of the whole
+	// range of both masking families (lowest, interior below the first gate, gates ± 1, above, top)
+	for _, t := range tn {
+		for _, ver := range maskFamilyVers {
+			for _, cs := range sweepConns {
+				jobs = append(jobs, job{t, ver, cs})
+				lines = append(lines, fmt.Sprintf("D %d %s", ver, vh.Hex([]byte(cs.s))))
+				rep.Count("mask.family_sweep." + familyOf(ver).name)
+			}
 		}
 	}
 	outs, err := vh.RunDriver(env.Driver, lines)
@@ -3044,7 +3229,7 @@ func runReplay(path string) {
 func main() {
 	env, rep = vh.Parse("C07")
 	rng = vh.NewRng(env.Seed).Fork() // Fork: consecutive seeds of vh.NewRng are the same splitmix stream shifted by one draw
-	rep.Rule = "rt: one case = (pack type, version, field values); versions = {gate-1, gate, gate+1 for every version constant found in lang/pack/udp/*.go} ∪ random; " +
+	rep.Rule = "rt: one case = (pack type, version, field values); versions = {gate-1, gate, gate+1 for every version constant (literal or named) found in lang/pack/udp/*.go} ∪ samples of the whole range of every family (lowest, interior below the first gate, above the last gate, top) ∪ random; " +
 		"text lengths biased to 0, 1, cap-1, cap, cap+1, 65535; non-trivial = the writer produced at least one byte; distinct by canonical text. " +
 		"pool: one case = one acquire/fill/release history of a type (non-trivial: at least two acquires). " +
 		"mask: one case = (pack type, version, connection string) (non-trivial: contains '='). num: one case = one numeral or text."
@@ -3053,6 +3238,9 @@ func main() {
 		vh.Die("no version gates found under %s/lang/pack/udp", env.Repo)
 	}
 	rep.Extra["gates_in_source"] = gates
+	rep.Extra["named_gates_in_source"] = namedGates
+	initFamilyVersions()
+	rep.Extra["mask_family_versions"] = maskFamilyVers
 
 	if env.Replay != "" {
 		runStage("replay", func() { runReplay(env.Replay) })
